@@ -87,6 +87,19 @@ def rule_scope_order(prog):
                         if any(x.get("k") == "Field" and x["name"] == "local_table" for x in hir.nodes(cond)):
                             ok = True
                             why = "global_table is consulted after a test of the local lookup"
+        if not ok:
+            # early-return form: a statement in front of the first use of the global table looks into the local table and returns its hit
+            blk_ = hir.strip(b["body"])
+            stmts_ = (blk_["b"]["stmts"] + ([blk_["b"]["expr"]] if blk_["b"].get("expr") else [])) if blk_.get("k") == "BlockExpr" else []
+            first_g = next((i_ for i_, s_ in enumerate(stmts_) if any(x.get("k") == "Field" and x["name"] == "global_table" for x in hir.nodes(s_))), None)
+            if first_g is not None:
+                for s_ in stmts_[:first_g]:
+                    has_local = any(x.get("k") == "Field" and x["name"] == "local_table" for x in hir.nodes(s_))
+                    returns_hit = any(r_.get("k") == "Ret" and r_.get("e") is not None and any(
+                        last(p_["res"].get("ctor_of", "")) == "Some" for p_ in hir.nodes(r_["e"], "Path")) for r_ in hir.nodes(s_))
+                    if has_local and returns_hit and not any(x.get("k") == "Field" and x["name"] == "global_table" for x in hir.nodes(s_)):
+                        ok = True
+                        why = "a hit in the local table is returned before the global table is looked at"
         out.add("table::LookupTable::lookup", "local table is consulted before the global table", ok, fc.loc(b["sp"]), why, ("order",))
     # (2) inside a procedure context the cursor identifier is resolved through a LookupTable built from that procedure
     n_sites = 0
